@@ -14,6 +14,8 @@ CLAIMED = {
     "C15": dict(technique=T_E2 + "; connection-outcome sequences on the virtual-time kernel, reconnect interval a solver real, attempt times compared as terms", design_ref="DESIGN.md 5/C15"),
     "C16": dict(technique=T_E2 + "; interval/timeout as unbounded solver reals for validation; ping thread + check() on the virtual-time kernel with latencies and arrival times as solver reals", design_ref="DESIGN.md 5/C16"),
     "C17": dict(technique=T_E2 + "; arbitrary symbolic response heads / frame streams, ASCII SymStr for decoded text; exception class, read-request cap and step budget as assertions", design_ref="DESIGN.md 5/C17"),
+    "C09": dict(technique=T_E2 + "; symbolic ASCII header strings through _validate; symbolic 3-digit status, header variants, redirect chains and truncation points through the real connect() on the fake network", design_ref="DESIGN.md 5/C09"),
+    "C10": dict(technique=T_E2 + "; symbolic ASCII host/resource/option strings and 128 symbolic key bits; produced request compared with an independently assembled one", design_ref="DESIGN.md 5/C10"),
     "C12": dict(technique=T_E2 + " for short writes; z3 integer-order query over lock/write event traces extracted from the real code for ALL thread interleavings, replayed with real threads", design_ref="DESIGN.md 5/C12"),
 }
 _PENDING = "check not built yet in this revision (planned: see DESIGN.md section 5)"
